@@ -101,6 +101,12 @@ func genFinCase(t *rapid.T) *finCase {
 	default:
 		f.Size = (payload*2 + 1<<20) / f.BS * f.BS
 	}
+	if min := 2 * f.BS; f.Size < min {
+		f.Size = min
+	}
+	if f.Size < 64<<10 {
+		f.Size = 64 << 10
+	}
 	return f
 }
 
